@@ -7,6 +7,7 @@ package main
 
 import (
 	"fmt"
+	"go/token"
 	"go/types"
 	"sort"
 	"strconv"
@@ -528,4 +529,129 @@ func bigConst(t *Term) bool {
 		}
 	}
 	return len(s) > 19 || s >= "9223372036854775807"
+}
+
+// prefixPredicate recognises a hand-written bytes.HasPrefix: a function with
+// one boolean result that returns true only after (a) len(D) >= len(O) and
+// (b) a full-range loop over O in which every completed iteration has seen
+// D[i] == O[i]. D and O are returned as terms of the function (parameters or
+// loads of package variables).
+func (P *Prog) prefixPredicate(fn *ssa.Function) (d, o *Term, ok bool) {
+	if fn == nil || fn.Blocks == nil || fn.Signature.Results().Len() != 1 || boolResultIndex(fn) != 0 {
+		return nil, nil, false
+	}
+	var L *loopInfo
+	for _, l := range findLoops(fn) {
+		if l.fullRange && (l.kind == "counted" || l.kind == "slice-range") {
+			if L != nil {
+				return nil, nil, false
+			}
+			L = l
+		}
+	}
+	if L == nil || len(findLoops(fn)) != 1 {
+		return nil, nil, false
+	}
+	o = P.terms.of(L.over)
+	_ = P.terms.of(L.idx)
+	n := 0
+	for _, p := range P.enumPaths(fn, L.body, func(b *ssa.BasicBlock) bool { return b == L.header }, false) {
+		if p.ret != nil {
+			if rt := p.results()[0]; !(rt.Op == "const" && rt.S == "false") {
+				return nil, nil, false
+			}
+			continue
+		}
+		n++
+		found := false
+		// SSA level: an equality test between D[idx] and O[idx] (same loop index) that holds on this path
+		for k, at := range p.condAt {
+			iff, isIf := at.(*ssa.If)
+			if !isIf || k >= len(p.conds) {
+				continue
+			}
+			cmp, isCmp := iff.Cond.(*ssa.BinOp)
+			if !isCmp || (cmp.Op != token.EQL && cmp.Op != token.NEQ) {
+				continue
+			}
+			// the path must take the "equal" outcome
+			c := p.conds[k]
+			if !(c.Pred.Op == "binop" && c.Pred.S == "==" && c.Val) {
+				continue
+			}
+			bx, ix := elemIndexOf(cmp.X)
+			by, iy := elemIndexOf(cmp.Y)
+			if bx == nil || by == nil || ix != L.idx || iy != L.idx {
+				continue
+			}
+			tx, ty := P.terms.of(bx), P.terms.of(by)
+			var dd *Term
+			switch {
+			case ty.eq(o) && !tx.eq(o):
+				dd = tx
+			case tx.eq(o) && !ty.eq(o):
+				dd = ty
+			default:
+				continue
+			}
+			if d != nil && !d.eq(dd) {
+				return nil, nil, false
+			}
+			d = dd
+			found = true
+		}
+		if !found {
+			return nil, nil, false
+		}
+	}
+	if n == 0 || d == nil {
+		return nil, nil, false
+	}
+	// true is returned only after the loop, with the length test passed
+	nt := 0
+	for _, p := range P.allPaths(fn) {
+		rt := p.results()[0]
+		if rt.Op == "const" && rt.S == "false" {
+			continue
+		}
+		nt++
+		if !(rt.Op == "const" && rt.S == "true") || !p.contains(L.header) {
+			return nil, nil, false
+		}
+		fs := factSet{}
+		for _, c := range p.conds {
+			fs.add(c)
+		}
+		if !(fs.has(Fact{tLt(tLen(d), tLen(o)), false}) || fs.has(Fact{tLe(tLen(o), tLen(d)), true})) {
+			return nil, nil, false
+		}
+	}
+	return d, o, nt > 0
+}
+
+func unifyOne(pat string, t *Term) (bindings, bool) { return unify(mustPat(pat), t, bindings{}) }
+
+// prefixFacts lists (data term, prefix term) pairs that the facts establish
+// through hand-written prefix predicates: f(args) is true.
+func (P *Prog) prefixFacts(fs factSet) [][2]*Term {
+	var out [][2]*Term
+	for _, f := range fs {
+		if !f.Val || f.Pred.Op != "call" {
+			continue
+		}
+		g := P.calleeOfTerm(f.Pred)
+		if g == nil {
+			continue
+		}
+		d, o, ok := P.prefixPredicate(g)
+		if !ok {
+			continue
+		}
+		m := map[string]*Term{}
+		for i, a := range f.Pred.Args {
+			m[strconv.Itoa(i)] = a
+		}
+		out = append(out, [2]*Term{d.subst(m), o.subst(m)})
+	}
+	return out
 }
